@@ -207,6 +207,47 @@ def run(rep_in=None, ctx_in=None, only_transform=False):
         o.verdict, o.detail = "inconclusive", str(ex)
         rep.add(o)
 
+    # ---------------------------------------------------------------- Transform::new: where `copy` and the temp dir come from
+    try:
+        import optsum as _opt2
+        tn = prog.method("Transform", "new")
+        engn = oblig.engine(prog, unroll=1, inline=None, extra=dict(_opt2.SUMMARIES))
+        psn = engn.run(tn, args=[Lazy("cmd", tn.args[0][1]), Bool(z3.Bool("in_place"))])
+        fi_ = prog.src.field_index
+
+        def nprop(p):
+            if not (p.status == "return" and isinstance(p.result, EnumV) and p.result.variant == "Ok"):
+                return None
+            t = p.result.fields.get(0)
+            if not isinstance(t, Agg):
+                return z3.BoolVal(False)
+            st = _st(p)
+            pc_ = called(p, r"(^|::)parse_command$")
+            td = called(p, r"create_temp_dir$")
+            if len(pc_) != 1 or len(td) != 1:
+                return z3.BoolVal(False)
+            # the temp dir is always the freshly created per-run directory
+            tmp = t.fields.get(fi_("Transform", "tmp_dir"))
+            tmp_ok = isinstance(tmp, Lazy) and isinstance(td[0].ret, Lazy) and tmp.name.startswith(td[0].ret.name + "@Ok")
+            # `copy` (a private copy of $IN is made) is the flag the substitution callback of parse_command sets - the same callback
+            # mechanism make_args substitutes with - read out of its cell after parsing
+            cp = t.fields.get(fi_("Transform", "copy"))
+            inner = [ev for ev in called(p, r"RefCell::into_inner$|Cell::get$|Cell::into_inner$") if ev.ret is cp or (isinstance(cp, Bool) and isinstance(ev.ret, Bool) and z3.eq(cp.t, ev.ret.t))]
+            cp_ok = False
+            if inner:
+                cell = summaries.canon(engn, st, inner[0].args[0])
+                clo = pc_[0].args[1]
+                caps = [summaries.canon(engn, st, summaries.deref_val(engn, st, v)) if isinstance(v, Ref) else summaries.canon(engn, st, v)
+                        for v in (clo.fields.values() if isinstance(clo, Agg) else [])]
+                cp_ok = cell.lstrip("&") in [c.lstrip("&") for c in caps]
+            return z3.BoolVal(bool(tmp_ok and cp_ok))
+        finish(oblig.check_paths(engn, psn, "Transform::new: the temp dir is the per-run directory just created; `copy` is the flag set by parse_command's substitution callback",
+                                 nprop, oblig.fnames(engn), key="transform:new", allow=("return", "panic", "diverge", "bound")), "in-place-copy")
+    except Inconclusive as ex:
+        o = Obligation("Transform::new", "E2 mirsym/z3")
+        o.verdict, o.detail = "inconclusive", str(ex)
+        rep.add(o)
+
     if only_transform:
         return rep
 
